@@ -84,3 +84,8 @@ add("C18", "exploration",
     "Go race detector (-race build of harness + shovel) over free-running production-wired tasks: real goroutine concurrency, head poller at 2 ms with injected failures, delays at both wire boundaries, head growth and reorgs in flight; reports de-duplicated by innermost shovel frame pair",
     "Family A: one task with concurrency 2..8; family B: 2–4 tasks on one source client with overlapping ranges and different data plans so cached segments are shared while logs/receipts/traces are attached. Runner goroutines call Converge until every pair reaches a head that keeps moving; any race report whose two stacks both hold a shovel frame is a violation. Minimum observations (Converge executions, in-flight requests >= 2, poller requests/failures, reorgs) are enforced.",
     "The race detector sees only interleavings that occurred; a clean run is not race freedom. Trusted: Go race runtime; the harness's own shared state is mutex/atomic-protected (a report without two shovel stacks is inconclusive).", "DESIGN.md §7 C18")
+
+add("C20", "exploration",
+    "online checker over the hook event log of the real Manager (run/generation, runner and step events under one global sequence) + reference merge model of file and database configuration; restarts at random instants and at hook points",
+    "File/database configuration mixes (name clashes with different contents, disabled entries, several sources per integration, unknown source in file or database) start the real Manager; the loaded tasks (source, integration, chain id, start, stop, batch, concurrency) are compared with an independent merge model; 1–4 restarts are issued one at a time at random instants, while a runner sits between its two transactions, right after the previous start-up signal, and after storing new integrations; the event log must never show two live runners or overlapping steps for one pair nor any event of a previous generation after Restart returned.",
+    "Trusted: the build-tag-guarded event hooks (sequence numbers from one atomic counter); fakepg/simnode as in C01. Restarts are issued one at a time. Wall-clock only in watchdogs.", "DESIGN.md §7 C20")
